@@ -1,4 +1,5 @@
 import LentilVerif.Model.Field
+import LentilVerif.Gen.FieldDispatch
 /-! 0-d aware model of `lentil.field._merge` / `reduce` / `merge` / `overlap` (C06).
 
 `Wavefront.__init__` creates fields whose data is a **0-d** array. Everywhere except one corner a 0-d field behaves as a
@@ -16,6 +17,11 @@ variable {K : Type}
 structure ZFld (K : Type) where
   fld : Fld K
   zd : Bool
+
+/-- `Field.__mul__`, 0-d aware: the data of the product is 0-d exactly when both operands are 0-d (NumPy: `() * ()` is
+`()`, `() * (1, 1)` is `(1, 1)`, and a one-element operand is broadcast to the other's shape) -/
+def ZFld.mul [Mul K] (a b : ZFld K) : Option (ZFld K) :=
+  (a.fld.mul b.fld).map fun p => { fld := p, zd := a.zd && b.zd }
 
 /-- `lentil.field._merge`, 0-d aware: `none` = NumPy raises `ValueError` -/
 def mergeZ [Add K] [Zero K] (fs : List (ZFld K)) : Option (ZFld K) :=
@@ -56,26 +62,32 @@ def disjointZ : Nat → List (GroupZ K) → List (GroupZ K)
       | some gm, some gk => disjointZ fuel ((gs.set m (mergeGroupsZ gm gk)).eraseIdx k)
       | _, _ => gs
 
-/-- `_merge(f['field']) if len(f['field']) > 1 else f['field'][0]` -/
+/-- `_merge(f['field']) if len(f['field']) > 1 else f['field'][0]`; the test is the generated `Gen.reduceMerges` -/
 def GroupZ.out [Add K] [Zero K] (g : GroupZ K) : Option (ZFld K) :=
-  match g.fields with
-  | [z] => some z
-  | l => mergeZ l
+  if Gen.reduceMerges (g.fields.length : Int) then mergeZ g.fields
+  else match g.fields with
+    | [z] => some z
+    | l => mergeZ l          -- not reached with the current test (an empty group does not occur)
 
 /-- `lentil.field.reduce`, 0-d aware -/
 def reduceZ [Add K] [Zero K] (zs : List (ZFld K)) : List (Option (ZFld K)) :=
   (disjointZ zs.length (zs.map GroupZ.single)).map GroupZ.out
 
-/-- public `lentil.field.merge(a, b, enforce_overlap)`: refuses (`none` = `ValueError`) two fields that do not overlap
-when `enforce_overlap`, else `_merge((a, b))` -/
-def mergePublic [Add K] [Zero K] (a b : ZFld K) (enforce : Bool) : Option (ZFld K) :=
-  if enforce && !(intersect a.fld.extent b.fld.extent) then none else mergeZ [a, b]
+def b2i (b : Bool) : Int := if b then 1 else 0
 
-/-- public `lentil.field.overlap(fields)`: for exactly two fields the extent test, otherwise "`_reduce` leaves at most
-one group" -/
+/-- public `lentil.field.overlap(fields)`: `len(fields) == 2` (generated `Gen.overlapIsPair`) → the extent test on
+`fields[0]`, `fields[1]`; otherwise `_reduce` and the generated test `Gen.overlapManyFalse` on the number of groups -/
 def overlapL (fs : List (Fld K)) : Bool :=
-  match fs with
-  | [a, b] => intersect a.extent b.extent
-  | _ => decide ((disjoint fs.length (fs.map fun f => { fields := [f], extent := f.extent })).length ≤ 1)
+  if Gen.overlapIsPair (fs.length : Int) then
+    match fs with
+    | a :: b :: _ => intersect a.extent b.extent
+    | _ => false             -- not reached with the current test (`fields[1]` would raise IndexError)
+  else
+    !(Gen.overlapManyFalse ((disjoint fs.length (fs.map fun f => { fields := [f], extent := f.extent })).length : Int))
+
+/-- public `lentil.field.merge(a, b, enforce_overlap)`: the refusal test is the generated `Gen.mergeRefuses`
+(`enforce_overlap and not overlap((a, b))`, `none` = `ValueError`), else `_merge((a, b))` -/
+def mergePublic [Add K] [Zero K] (a b : ZFld K) (enforce : Bool) : Option (ZFld K) :=
+  if Gen.mergeRefuses (b2i enforce) (b2i (overlapL [a.fld, b.fld])) then none else mergeZ [a, b]
 
 end Lentil
